@@ -202,13 +202,29 @@ def c16(ctx):
     p_devices.run_devices(ctx, jobs, 0, observe="all")
     # (b) lifetimes
     lifetimes_part(ctx, 3 if q else 4)
+    # a Reference must not outlive its target either: the handle behaviours of Reference.tla (clone / to_dyn / drop), drop counter inspected
+    import p_reference
+    r = tlc_ok(run_tlc(ctx, "Reference", p_reference.ref_cfg(4 if q else 5), "handles", 4))
+    bindir = build_harness(["reference"])
+    mism, summary, _ = run_bin(bindir, "reference", ["replay", r["behaviours"], ctx.seed], timeout=600)
+    ctx.evaluations += summary.get("replays", 0)
+    ctx.extra["reference_replay_summary"] = summary
+    seen = set()
+    for m in mism:
+        if "dropped" not in m["what"] or (m["variant"], m["what"]) in seen:
+            continue                                   # aliasing / to_dyn availability are C17's business
+        seen.add((m["variant"], m["what"]))
+        beh = json.loads(vlib.nth_line(r["behaviours"], m["line"]))
+        ctx.violation("reference_outlives_target:%s" % m["variant"], {"replay_kind": "reference", "behaviour": beh, "mismatch": m},
+                      "%s: a live Reference outlives its target: %s after %s" % (m["variant"], m["what"], json.dumps([s["a"] for s in beh["steps"]][:m["step"] + 1])))
     ctx.rule = ("(a) SumStream / ProductStream with arities 1..8 and every pattern of {error, absent, present} inputs: TLC checks on the slot-level "
                 "model that only initialised slots below the fill counter are read, the harness runs the real streams with the scratch arrays "
                 "poisoned (hook) and compares value and timestamp; terminal state read for the four own / partner presence combinations; axle "
                 "constructor for sizes 0..8 (fresh terminals must be borrowable, empty and unlinked, out-of-range get_terminal must panic). "
                 "(b) every program of up to 3-4 statements {use, move, drop, end of scope} after taking a reference through each accessor whose "
                 "returned lifetime is not tied to &self (found by scanning the sources) or a plain reference (control), compiled against the "
-                "crate; probes for the unsafe raw-pointer constructors and the static-making macros. Non-trivial = mixed inputs / a must_reject program.")
+                "crate; probes for the unsafe raw-pointer constructors and the static-making macros; the handle behaviours of Reference.tla with the "
+                "payload's drop counter inspected after every operation (a live Reference must not outlive its target). Non-trivial = mixed inputs / a must_reject program.")
     ctx.assumptions += ["the Rust compiler is the oracle for whether a program is accepted, the specification for whether accepting it is safe",
                         "(b) decides the property for the program shapes the model generates (take / use / move / drop / scope end over every scanned accessor)"]
     ctx.exhaustive = False
